@@ -76,6 +76,16 @@ def run(tier, seed, ck=None):
     ck.outside += ['multiplication algorithms of a different shape (more accumulators, windows) would be INCONCLUSIVE, not a violation']
     if own:
         kernels.prove(ck, 'scalar', ['FromMontgomery'], tier)
+        # the ladder is checked over the CONTRACT of Add/Double; that contract is re-proved on the current tree (C02's obligations)
+        from props import C02, fallback
+        try:
+            C02.run(tier, seed, ck)
+        except (ValueError, core.EngineError) as e:
+            ck.record('C01.group-law', 'Add/Double formulas could not be encoded (%s)' % str(e)[:120], 'unknown', 'symx', 0.0, 'unsat')
+            path = ck.save_replay({'property': 'C01', 'cases': fallback.cases_for('C02', seed), 'reason': str(e)[:300]})
+            ok, out = core.go_test(path)
+            if not ok and 'MISMATCH' in out:
+                ck.violation('group-law', 'the addition/doubling used by the ladder is wrong: %s' % [l.strip() for l in out.splitlines() if 'MISMATCH' in l][:1], path)
     failures = []
 
     def step(k):
@@ -188,7 +198,8 @@ def signed64(v):
 def battery(ck, failures):
     import random
     rng = random.Random(ck.seed + 21)
-    ks = list(ck.extra.get('_steer', [])) + [0, 1, 2, 3, N - 1, N - 2, 2**255, 2**255 + 1, 2**254, (1 << 256) % N, 2**128, 2**64 - 1, (N - 1) // 2] + [rng.randrange(N) for _ in range(6)]
+    Ri_ = pow(R, -1, N)
+    ks = list(ck.extra.get('_steer', [])) + [sp * Ri_ % N for sp in (1, 2**64 - 1, 2**64, 2**128, 2**191, 2**63)] + [0, 1, 2, 3, N - 1, N - 2, 2**255, 2**255 + 1, 2**254, (1 << 256) % N, 2**128, 2**64 - 1, (N - 1) // 2] + [rng.randrange(N) for _ in range(6)]
     import re
     for f in failures:
         m = re.match(r'C01\.iter(\d+)', f)
